@@ -314,7 +314,7 @@ theorem Reach.rbrace {st : List Open} {last : Kind} {ts : List Tok} (h : Reach (
       simpa using this
   | objOpen st0 l0 pre ho =>
     simp only [List.cons.injEq, true_and] at hst; subst hst
-    have := Reach.done st0 l0 pre _ .objClose ho Value.emptyObject rfl
+    have := Reach.done _ l0 pre _ .objClose ho Value.emptyObject rfl
     simpa using this
   | objComma _ _ _ _ _ _ => exact absurd (Or.inr rfl) hl
 
